@@ -1,4 +1,4 @@
-"""C01 — decided by PlMachine/PlExpr (TLA+) over generated program families: hostile,control,builtins,extract."""
+"""C01 — decided by PlMachine/PlExpr (TLA+) over generated program families: hostile,control,builtins,extract,use."""
 import os
 
 from lib import gen, vlib
@@ -6,7 +6,7 @@ from checks import machine
 from checks.common import absorb
 
 LEVEL = "model_checking"
-FAMILIES = "hostile,control,builtins,extract".split(",")
+FAMILIES = "hostile,control,builtins,extract,use".split(",")   # use: call trees (callees failing / exiting at every position)
 
 
 def run(ck):
